@@ -210,7 +210,13 @@ func (h *H) connInfos() []*connInfo {
 // pending transfers were retransmitted first, completely, byte-exact modulo
 // DUP, in acceptance order, at the right stage.
 func (h *H) checkResend(msgs []*Msg, strictOrder bool) (resent int) {
-	for _, ci := range h.connInfos() {
+	// (The client may still be running. The messages are derived from the
+	// log anew *after* the connections were: a connection which counts as
+	// through its resend must be judged against everything which happened
+	// before it, e.g. the Delete behind an acknowledgement.)
+	infos := h.connInfos()
+	msgs = h.messages()
+	for _, ci := range infos {
 		if ci.ReadySeq == 0 {
 			continue // connect did not complete on this connection
 		}
